@@ -502,6 +502,24 @@ class Engine:
             raise VerifError("optional result type must be resolved by the contract (use variants)")
         raise VerifError("result type %r" % (ty,))
 
+    def run_anchor(self, fv, st, stmts, short):
+        """ghost code anchored at a call inside an expression: it must leave exactly one state, which
+        replaces the caller's state in place (a statically decided ghost `if` continues in a fork)"""
+        if not stmts:
+            return
+        outs = fv.run_ghost(stmts, st)
+        if len(outs) != 1:
+            raise VerifError("ghost code anchored at the call of %s must not branch on a symbolic condition" % short)
+        o = outs[0]
+        if o is not st:
+            st.env = o.env
+            st.heap = o.heap
+            st.assumes = o.assumes
+            st.guards = o.guards
+            st.funcs = o.funcs
+            st.pending_ovf = o.pending_ovf
+            st.labels = o.labels
+
     def call_contract(self, fv, st, cd, node, prog):
         if cd.options.get("trusted"):
             X.USED.add("ASSUMED contract (bounded run-time check only): %s" % cd.qualname)
@@ -515,8 +533,7 @@ class Engine:
         # temporary passed to the callee); the `before` anchor runs after argument evaluation
         for pn in pnames:
             st.env["%s_arg_%s" % (short, pn)] = bound[pn]
-        for s_ in fv.run_ghost(cd_anchor(fv, short, site, "before"), st):
-            pass
+        self.run_anchor(fv, st, cd_anchor(fv, short, site, "before"), short)
         # callee view
         cs = State()
         cs.env = dict(bound)
@@ -635,8 +652,7 @@ class Engine:
         for n, v in fv.skolems:
             st.env["%s_%s" % (pref, n)] = v
         fv.skolems = []
-        for s_ in fv.run_ghost(cd_anchor(fv, short, site, "after"), st):
-            pass
+        self.run_anchor(fv, st, cd_anchor(fv, short, site, "after"), short)
         return res
 
     def result_for(self, fv, st, cd, bound, rty, short):
